@@ -332,6 +332,17 @@ def untuple(ops):
     return res
 
 
+def guarded(ctx, fn, kind, ops):
+    """An exception out of the real code (e.g. its own _check / assert_invariants firing on valid arguments) breaks the
+    statement: a set / a partial map accepts every such operation."""
+    try:
+        return fn(ctx, ops)
+    except Exception as e:
+        ctx.violation("%s history raises %s: %s" % (kind, type(e).__name__, str(e)[:100]), {"kind": kind, "ops": ops},
+                      "%s-exception-%s" % (kind, type(e).__name__))
+        return "EXC:" + type(e).__name__
+
+
 def run(ctx):
     shists, dhists = [], []
     if ctx.replay:
@@ -346,8 +357,8 @@ def run(ctx):
             shists.append(gen_history(ctx.rng, ctx.rng.choice(lens), ctx.rng.choice(offs)))
         for i in range(ctx.budget(150, 3000)):
             dhists.append(gen_dhistory(ctx.rng, ctx.rng.choice(lens), ctx.rng.choice(offs)))
-    simpl = [run_impl(ctx, h) for h in shists]
-    dimpl = [run_dimpl(ctx, h) for h in dhists]
+    simpl = [guarded(ctx, run_impl, "spans", h) for h in shists]
+    dimpl = [guarded(ctx, run_dimpl, "dspans", h) for h in dhists]
     model = ctx.model([line_of(h) for h in shists] + [dline_of(h) for h in dhists])
     if model is not None:
         ctx.compare("Spans history (internal _spans list after each op, query results)",
